@@ -228,6 +228,21 @@ theorem cylinder_part_proportional (k : Consts K) (p1 p2 : V3 K) (r u2 : K) :
   · simp [h1, h2, not_lt.mp h2]
   · simp [h1, not_lt.mp h1]
 
+/-- Non-vacuity: the square-root hypothesis `SqrtOK` holds of `Real.sqrt`; the HG constants. -/
+example : SqrtOK ℝ := sqrtOK_real
+example : (0 : ℝ) < 1 / 100000 ∧ (1 / 100000 : ℝ) ≤ 99999 / 100000 ∧ (99999 / 100000 : ℝ) < 1 := by norm_num
+
+/-- Non-vacuity of the cylinder hypotheses: a unit cylinder along z over ℝ; the draw 9/10 selects
+the shaft and the draw 0 the first cap. -/
+example : ∃ (k : Consts ℝ) (p1 p2 : V3 ℝ) (r u2 : ℝ),
+    0 < (p2.sub p1).normSq ∧ cylPart k p1 p2 r u2 = 2 ∧ cylPart k p1 p2 r 0 = 0 := by
+  refine ⟨⟨1, 1, 1, 3, 1, 1⟩, ⟨0, 0, 0⟩, ⟨0, 0, 1⟩, 1, 9 / 10, ?_, ?_, ?_⟩
+  · norm_num [V3.sub, V3.normSq]
+  · have : (⟨0, 0, 1⟩ : V3 ℝ).dist ⟨0, 0, 0⟩ = 1 := by simp [V3.dist, sqrt_real]
+    simp only [cylPart, cylShaftArea, cylSideArea, this]; norm_num
+  · have : (⟨0, 0, 1⟩ : V3 ℝ).dist ⟨0, 0, 0⟩ = 1 := by simp [V3.dist, sqrt_real]
+    simp only [cylPart, cylShaftArea, cylSideArea, this]; norm_num
+
 /-- **Every `SphereAreaLight` sample lies on the sphere, with the unit outward normal**: for an
 accepted (non-zero) Gaussian triple, `normal` is a unit vector and `point − center = radius·normal`,
 hence `|point − center|² = radius²`. -/
@@ -393,5 +408,126 @@ theorem total_emission_eq_emission_times_area (hs : SqrtOK K) (k : Consts K) (e 
     simp only [Tri.area]; ring
   rw [e2, h]
   simp only [Tri.crossProduct, V3.cross, V3.sub, V3.normSq, V3.dot]; ring
+
+/-! ## 5. Radial laws: the sampler's radial map inverts the cumulative integral of the density
+
+Densities are "relative to the uniform density on the sphere".  For a law that depends only on
+the cosine `x` of the angle to a fixed axis, the uniform law has density `1/2` in `x` on `[−1,1]`,
+so a reported density `ρ(x)` is right iff the sampler's cosine has a CDF `F` with `F' = ρ/2`,
+and the sampler is the inverse-CDF map iff `F(cos(u)) = u` (or `1−u`).  The longitude is
+`2π·u'` for an independent draw — uniform — and enters the samples only through a unit circle
+point `(c,s)` (see the `…_cosine` theorems).  *Partial:* the statement about the histogram of a
+pseudo-random stream is not a theorem; what is proved is this change of variables. -/
+
+/-- The cosine between a direction sampled by `sampleAroundDirection` / `HGMaterial.SampleSource` /
+`sampleAroundUniform` (all of the form `dir·cosLat + lonPoint·sinLat` over `dir.OrthoBasis()`) and
+`dir` is exactly the radial variable `cosLat`, and the sample is a unit vector. -/
+theorem lobe_sample_cosine (hs : SqrtOK K) (dir : V3 K) (hdir : dir.dot dir = 1) (cl c s : K)
+    (hcs : c * c + s * s = 1) (hcl : cl * cl ≤ 1) :
+    dir.dot (aroundDirSample dir cl c s) = cl ∧
+    (aroundDirSample dir cl c s).dot (aroundDirSample dir cl c s) = 1 := by
+  have hb := orthoBasis_spec hs (c := dir) (by rw [normSq_eq_dot, hdir]; exact one_pos)
+  have hsl := hs.sq (1 - cl * cl) (by linarith)
+  simp only [aroundDirSample]
+  exact ⟨around_sample_dot hb hdir c s cl _, around_sample_unit hb hdir hcs (by linarith)⟩
+
+/-- **Lambert**: the sample's cosine with the (negated) normal is `√u`, so the reported density at
+the sample is `4√u`; the cosine's CDF is `F(x) = x²`: `F(√u) = u` (inverse-CDF sampling),
+`F' = 2x = (4x)·½` (the density `4cos` relative to uniform), `F(0) = 0`, `F(1) = 1` (mass one). -/
+theorem lambert_cdf (n : V3 ℝ) (hn : n.dot n = 1) (u c s : ℝ) (hu0 : 0 ≤ u) (hu1 : u ≤ 1)
+    (hcs : c * c + s * s = 1) :
+    lambertDensity n (lambertSample n u c s) = 4 * Real.sqrt u ∧
+    (lambertSample n u c s).dot (lambertSample n u c s) = 1 ∧
+    (Real.sqrt u) ^ 2 = u ∧
+    (∀ x : ℝ, HasDerivAt (fun y : ℝ => y ^ 2) ((4 * x) * (1 / 2)) x) ∧
+    ((0 : ℝ) ^ 2 = 0 ∧ (1 : ℝ) ^ 2 = 1) := by
+  have hb := orthoBasis_spec sqrtOK_real (c := n) (by rw [normSq_eq_dot, hn]; exact one_pos)
+  have hdot : n.dot (lambertSample n u c s) = -Real.sqrt u := by
+    simp only [lambertSample]
+    exact around_sample_dot hb hn c s (-(sqrt u)) _
+  refine ⟨?_, ?_, Real.sq_sqrt hu0, fun x => ?_, by norm_num⟩
+  · simp only [lambertDensity, hdot, neg_neg]
+    rw [if_neg (not_lt.mpr (Real.sqrt_nonneg u))]
+  · simp only [lambertSample]
+    refine around_sample_unit hb hn hcs ?_
+    have h1 := sqrtOK_real.sq u hu0
+    have h2 := sqrtOK_real.sq (1 - u) (by linarith)
+    linear_combination h1 + h2
+  · have := (hasDerivAt_pow 2 x)
+    simpa [mul_comm, mul_assoc] using this.congr_deriv (by ring)
+
+/-- **Phong lobe** (`sampleAroundDirection` / `densityAroundDirection`, also `PhongFocusPoint`), any
+exponent `α ≥ 0`: the expression the code evaluates is `2(α+1)·xᵅ`; the cosine's CDF is
+`F(x) = x^(α+1)` with `F(v^{1/(α+1)}) = v` (inverse-CDF sampling), `F' = 2(α+1)xᵅ·½`, `F(0)=0`, `F(1)=1`. -/
+theorem phong_cdf (a : ℝ) (ha : 0 ≤ a) :
+    (∀ x : ℝ, 0 < x → ∀ dir smp : V3 ℝ, dir.dot smp = x →
+      aroundDirDensity a dir smp ((x ^ (a + 1)) ^ (1 / (a + 1) - 1)) = 2 * (a + 1) * x ^ a) ∧
+    (∀ v : ℝ, 0 ≤ v → (v ^ (1 / (a + 1))) ^ (a + 1) = v) ∧
+    (∀ x : ℝ, 0 < x → HasDerivAt (fun y : ℝ => y ^ (a + 1)) ((2 * (a + 1) * x ^ a) * (1 / 2)) x) ∧
+    ((0 : ℝ) ^ (a + 1) = 0 ∧ (1 : ℝ) ^ (a + 1) = 1) := by
+  refine ⟨fun x hx dir smp hd => ?_, fun v hv => phong_radial_inverse ha hv, fun x hx => phong_cdf_deriv hx,
+    Real.zero_rpow (by linarith), Real.one_rpow _⟩
+  simp only [aroundDirDensity, hd, if_neg (not_lt.mpr hx.le)]
+  exact phong_density_closed_form ha hx
+
+/-- **Henyey–Greenstein**, every raw `G` (clamped by `numericalG` into `(−1,1)∖{0}`): for the draw
+`u ∈ [0,1]` the sampled cosine `x = hgCos g (2u−1)` lies in `[−1,1]` and the closed-form CDF
+`hgCDF g` of the reported density satisfies `hgCDF g x = u` (inverse-CDF sampling); its derivative
+is `cosDensity·½` with `cosDensity = (1−g²)/(1+g²−2gx)^{3/2}` as the code computes it;
+`hgCDF g (−1) = 0`, `hgCDF g 1 = 1` (mass one). -/
+theorem hg_cdf (k : Consts ℝ) (h0 : 0 < k.hgEps) (h1 : k.hgEps ≤ k.hgMax) (h2 : k.hgMax < 1) (graw : ℝ) :
+    let g := hgNumericalG k graw
+    (∀ u : ℝ, 0 ≤ u → u ≤ 1 →
+      -1 ≤ hgCos g (u * 2 - 1) ∧ hgCos g (u * 2 - 1) ≤ 1 ∧ hgCDF g (hgCos g (u * 2 - 1)) = u) ∧
+    (∀ x : ℝ, -1 ≤ x → x ≤ 1 →
+      HasDerivAt (hgCDF g) (hgCosDensity g (hgDivisor g x ^ ((3 : ℝ) / 2)) * (1 / 2)) x) ∧
+    hgCDF g (-1) = 0 ∧ hgCDF g 1 = 1 := by
+  intro g
+  obtain ⟨hg0, hg1, hg2⟩ := hgNumericalG_range k h0 h1 h2 graw
+  have key : ∀ s : ℝ, -1 ≤ s → s ≤ 1 →
+      -1 ≤ hgCos g s ∧ hgCos g s ≤ 1 ∧ hgCDF g (hgCos g s) = (s + 1) / 2 := by
+    intro s hs1 hs2
+    obtain ⟨hw, hdiv, hF, hl, hr⟩ := hg_algebra hg0 hg1 hg2 hs1 hs2
+    refine ⟨hl, hr, ?_⟩
+    simp only [hgCDF]
+    rw [hdiv, Real.sqrt_mul_self hw.le]
+    exact hF
+  obtain ⟨em1, e1⟩ := hgCos_endpoints hg0 hg1 hg2
+  refine ⟨fun u hu0 hu1 => ?_, fun x hx1 hx2 => ?_, ?_, ?_⟩
+  · obtain ⟨a, b, c⟩ := key (u * 2 - 1) (by linarith) (by linarith)
+    exact ⟨a, b, by rw [c]; ring⟩
+  · exact hg_cdf_deriv hg0 (hg_divisor_pos (abs_lt.mpr ⟨hg1, hg2⟩) hx1 hx2)
+  · have := (key (-1) le_rfl (by norm_num)).2.2
+    rw [em1] at this; rw [this]; norm_num
+  · have := (key 1 (by norm_num) le_rfl).2.2
+    rw [e1] at this; rw [this]; norm_num
+
+/-- **Uniform cap** (`sampleAroundUniform` / `densityAroundUniform`, `SphereFocusPoint`): for
+`minCos < 1` the sampled cosine `1 − u(1−m)` lies in `[m,1]`, where the reported density is the
+constant `2/(1−m)`; the CDF `F(x) = (x−m)/(1−m)` satisfies `F(cos(u)) = 1−u`, `F' = density·½`,
+`F(m) = 0`, `F(1) = 1`.  `focusInfo` makes `m` the cosine of the tangent cone:
+`m² = 1 − (r/d)²`, with `dir` the unit vector from the centre to the point. -/
+theorem uniform_cap_cdf (m : K) (hm : m < 1) (u : K) (hu0 : 0 ≤ u) (hu1 : u ≤ 1) (dir smp : V3 K) :
+    m ≤ capCos m u ∧ capCos m u ≤ 1 ∧ (capCos m u - m) / (1 - m) = 1 - u ∧
+    (dir.dot smp = capCos m u → aroundUniformDensity m dir smp = 2 / (1 - m)) ∧
+    (2 / (1 - m)) * (1 / 2) = 1 / (1 - m) ∧ (m - m) / (1 - m) = 0 ∧ (1 - m) / (1 - m) = 1 := by
+  have h1 : 0 < 1 - m := by linarith
+  have hc1 : m ≤ capCos m u := by simp only [capCos]; nlinarith
+  refine ⟨hc1, by simp only [capCos]; nlinarith, ?_, fun hd => ?_, by ring, by simp, div_self h1.ne'⟩
+  · simp only [capCos]; field_simp; ring
+  · simp only [aroundUniformDensity, hd, if_neg (not_lt.mpr hc1)]
+
+theorem focus_info_tangent_cone (hs : SqrtOK K) (center point : V3 K) (r : K) (hr : 0 ≤ r)
+    (hd : 0 < (point.sub center).normSq) (hout : ¬ (point.sub center).norm < r) :
+    let fi := focusInfo center r point
+    fi.1 * fi.1 = 1 - (r / (point.sub center).norm) * (r / (point.sub center).norm) ∧
+    0 ≤ fi.1 ∧ fi.2.dot fi.2 = 1 := by
+  have hn := norm_pos hs hd
+  have hle : r / (point.sub center).norm ≤ 1 := by rw [div_le_one hn]; exact not_lt.mp hout
+  have h0 : 0 ≤ r / (point.sub center).norm := div_nonneg hr hn.le
+  simp only [focusInfo, if_neg hout]
+  refine ⟨hs.sq _ (by nlinarith), hs.nonneg _, ?_⟩
+  have := normalize_normSq hs hd
+  rwa [normSq_eq_dot] at this
 
 end M3d.C19
